@@ -116,8 +116,9 @@ type Op struct {
 type Disk struct {
 	Root      *Inode
 	Cwd       string
-	Home      string // "" => UserHomeDir fails
-	Uid       int    // 0 = root: permission bits never deny
+	Home      string   // "" => UserHomeDir fails
+	Uid       int      // 0 = root: permission bits never deny
+	Umask     FileMode // applied to the mode of created files and directories, as open(2)/mkdir(2) do
 	Dead      bool
 	Step      int
 	Plan      []Fault
@@ -160,7 +161,7 @@ func (d *Disk) newInode(k Kind, mode FileMode) *Inode {
 
 // Clone makes a deep copy of the tree (open files and logs are not copied).
 func (d *Disk) Clone() *Disk {
-	c := &Disk{Cwd: d.Cwd, Home: d.Home, Uid: d.Uid, nextIno: d.nextIno, open: map[*File]struct{}{}, Rand: d.Rand, TempClash: d.TempClash}
+	c := &Disk{Cwd: d.Cwd, Home: d.Home, Uid: d.Uid, Umask: d.Umask, nextIno: d.nextIno, open: map[*File]struct{}{}, Rand: d.Rand, TempClash: d.TempClash}
 	seen := map[*Inode]*Inode{}
 	var cp func(n *Inode) *Inode
 	cp = func(n *Inode) *Inode {
@@ -573,7 +574,7 @@ func (d *Disk) mkdir(name string, perm FileMode) error {
 	if !d.canWrite(parent) || !d.canSearch(parent) {
 		return syscall.EACCES
 	}
-	parent.Children[nm] = d.newInode(KDir, perm)
+	parent.Children[nm] = d.newInode(KDir, perm&^d.Umask)
 	return nil
 }
 
@@ -966,7 +967,7 @@ func (d *Disk) open_(name string, flag int, perm FileMode) (*File, error) {
 		if !d.canWrite(parent) || !d.canSearch(parent) {
 			return nil, syscall.EACCES
 		}
-		n = d.newInode(KFile, perm)
+		n = d.newInode(KFile, perm&^d.Umask)
 		n.Data = []byte{}
 		parent.Children[nm] = n
 	} else {
